@@ -7,7 +7,7 @@
 import json, os, shutil, subprocess, sys, time
 
 VERIF = os.path.dirname(os.path.dirname(os.path.abspath(__file__)))
-ROOT = "/tmp/fpv_matrix"
+ROOT = os.environ.get("FPV_MATRIX_ROOT", "/tmp/fpv_matrix")
 ALL = ["C%02d" % i for i in range(1, 21)]
 
 
